@@ -256,6 +256,11 @@ def perturbations(name, enc):
     if name == 'EPATH' and enc[0] >= 1:
         out.append(('longer', bytes([enc[0] + 20]) + enc[1:], ('fails-or-within', 1 + 2 * (enc[0] + 20))))
         out.append(('shorter', bytes([0]) + enc[1:], ('consumes', 1)))
+    if name in ('EPATH_padded', 'route_path') and len(enc) >= 2:
+        # the reserved pad byte after the size: whatever it holds, the size byte alone bounds the path
+        for pad in (1, 7, 255):
+            out.append(('pad-%d' % pad, bytes([enc[0], pad]) + enc[2:] + bytes([0x01, 0x00, 0x20, 0x02, 0x24, 0x01]), ('within', 2 + 2 * enc[0])))
+        out.append(('pad-size0', bytes([0, 7, 0x20, 0x02, 0x24, 0x01]), ('within', 2)))
     if name == 'status' and enc[1] >= 1:
         out.append(('shorter', bytes([enc[0], enc[1] - 1]) + enc[2:], ('consumes', 2 + 2 * (enc[1] - 1))))
         out.append(('longer', bytes([enc[0], enc[1] + 30]) + enc[2:], ('within', 2 + 2 * (enc[1] + 30))))
